@@ -239,7 +239,7 @@ func ruleE2(p *Prog, r *Report) {
 			if raw == "" {
 				var reach func(v ssa.Value, depth int, seen map[ssa.Value]bool) string
 				reach = func(v ssa.Value, depth int, seen map[ssa.Value]bool) string {
-					if v == nil || depth > 4 || seen[v] || v.Referrers() == nil {
+					if v == nil || depth > 6 || seen[v] || v.Referrers() == nil {
 						return ""
 					}
 					seen[v] = true
@@ -249,7 +249,33 @@ func ruleE2(p *Prog, r *Report) {
 							if w := reach(x, depth+1, seen); w != "" {
 								return w
 							}
+						case *ssa.MakeInterface:
+							if w := reach(x, depth+1, seen); w != "" {
+								return w
+							}
+						case *ssa.ChangeInterface:
+							if w := reach(x, depth+1, seen); w != "" {
+								return w
+							}
 						case *ssa.Store:
+							// an operand of fmt.Errorf("...%w", err): the formatted error still is this failure
+							if ia, ok := x.Addr.(*ssa.IndexAddr); ok && x.Val == v {
+								if arr, ok := ia.X.(*ssa.Alloc); ok {
+									for _, r2 := range *arr.Referrers() {
+										sl, ok := r2.(*ssa.Slice)
+										if !ok {
+											continue
+										}
+										for _, r3 := range *sl.Referrers() {
+											if fc, ok := r3.(*ssa.Call); ok && fc.Call.StaticCallee() != nil && fc.Call.StaticCallee().Pkg != nil && fc.Call.StaticCallee().Pkg.Pkg.Path() == "fmt" && fc.Call.StaticCallee().Name() == "Errorf" {
+												if w := reach(fc, depth+1, seen); w != "" {
+													return w
+												}
+											}
+										}
+									}
+								}
+							}
 							// spilled local: follow the loads of the cell
 							if al, ok := x.Addr.(*ssa.Alloc); ok && x.Val == v {
 								for _, r2 := range *al.Referrers() {
